@@ -83,6 +83,11 @@ class Report:
             return self.unk(rule, where, "%s - not decided, the rule was written for another shape of this code: %s" % (badmsg, why), detail)
         return self.bad(rule, where, badmsg, detail)
 
+    def bad_form(self, rule, where, msg, detail=None):
+        """a violation whose ground is "the expected construct is not there / not in the expected number": like a failed two-way check it is
+        decided only where the function still has the shape the rule was confirmed on (shape gate)"""
+        return self.check(rule, False, where, "", msg, detail)
+
     def decide(self, rule, cond, where, okmsg, badmsg, detail=None):
         """a two-way rule whose "no" is a fact established by an analysis (an exception handler around the call, the state of the random
         stream at a draw), not the absence of an expected form: it holds whatever shape the surrounding code has"""
